@@ -1,0 +1,18 @@
+//go:build verif
+
+package errors
+
+// Contracts checked by /verif/hvc (build tag verif only; see /verif/DESIGN.md).
+
+/*@ func (self *Location) Advance
+    serves C06, C08
+    modifies self.Index, self.Line, self.Column
+    ensures self.Index == old(self.Index)+1
+    ensures newline ==> self.Line == old(self.Line)+1 && self.Column == 1
+    ensures !newline ==> self.Line == old(self.Line) && self.Column == old(self.Column)+1
+@*/
+
+/*@ func (self Location) Until
+    serves C08
+    ensures result.Start == self && result.End == end && result.Filename == filename
+@*/
